@@ -293,6 +293,11 @@ fn encode_to_writers(ctx: &mut Ctx, v: &Value, origin: &str) {
                         } else if !b.starts_with(&bytes) {
                             ctx.violation(&format!("writer:{fmt}:partial-output-not-a-prefix:{}", kind_path(v)), "the bytes written before the failure are not a prefix of the buffered encoding", json!({"value_debug": truncate(&format!("{v:?}"), 800)}));
                         }
+                        // a failed encode leaves no trace: encoding the same value again on this thread gives the same text
+                        let again: Option<Vec<u8>> = catch(|| if fmt == "zinc" { to_zinc_string(v).ok().map(String::into_bytes) } else { serde_json::to_vec(v).ok() }).unwrap_or(None);
+                        if again.as_ref() != Some(b) {
+                            ctx.violation(&format!("writer:{fmt}:failed-encode-changes-later-output:{}", kind_path(v)), &format!("after an encode into a failing writer, encoding the same value again gives {:?} instead of {:?}", again.map(|a| truncate(&String::from_utf8_lossy(&a), 200)), truncate(&String::from_utf8_lossy(b), 200)), json!({"value_debug": truncate(&format!("{v:?}"), 800)}));
+                        }
                     }
                 }
             }
